@@ -50,6 +50,10 @@ type World struct {
 	// the gate.  It may veto with an error.
 	Before func(ev *Event, data []byte) error
 	After  func(ev *Event)
+	// BeforeRead, if set, is asked before a file is opened for reading or read as a
+	// whole by a simulated process; it may veto with an error.  Reads are no gates
+	// and leave no events.
+	BeforeRead func(pkind, site, path string) error
 	// Counters of faults that actually fired.
 	FaultErrs, FaultTorn int
 	Outside              []string // mutating calls outside Root (must stay empty)
@@ -65,6 +69,7 @@ func Reset(root string) {
 	W.seq = 0
 	W.Before = nil
 	W.After = nil
+	W.BeforeRead = nil
 	W.FaultErrs, W.FaultTorn = 0, 0
 	W.Outside = nil
 	W.mu.Unlock()
@@ -211,6 +216,62 @@ func WriteFile(name string, data []byte, perm os.FileMode) error {
 	err := os.WriteFile(name, data, perm)
 	finish(ev, err)
 	return err
+}
+
+func beforeRead(name string) error {
+	t := vrt.Cur()
+	if t == nil || !vrt.S.Active {
+		return nil
+	}
+	W.mu.Lock()
+	b := W.BeforeRead
+	W.mu.Unlock()
+	if b == nil {
+		return nil
+	}
+	kind := ""
+	if t.Proc != nil {
+		kind = t.Proc.Kind
+	}
+	return b(kind, callStack(), rel(name))
+}
+
+// callStack returns the base names of the source files outside this package on the call
+// stack, innermost first, joined by "<" (consecutive repetitions once).
+func callStack() string {
+	var pcs [24]uintptr
+	n := runtime.Callers(3, pcs[:])
+	frames := runtime.CallersFrames(pcs[:n])
+	var out []string
+	for {
+		f, more := frames.Next()
+		if f.File != "" && !strings.Contains(f.File, "/verifsim/") && !strings.Contains(f.File, "/src/runtime/") && !strings.Contains(f.File, "/src/testing/") {
+			i := strings.LastIndexByte(f.File, '/')
+			b := f.File[i+1:]
+			if len(out) == 0 || out[len(out)-1] != b {
+				out = append(out, b)
+			}
+		}
+		if !more {
+			break
+		}
+	}
+	return strings.Join(out, "<")
+}
+
+// Open and ReadFile: the read side of the disk, for injected read errors only.
+func Open(name string) (*os.File, error) {
+	if err := beforeRead(name); err != nil {
+		return nil, err
+	}
+	return os.Open(name)
+}
+
+func ReadFile(name string) ([]byte, error) {
+	if err := beforeRead(name); err != nil {
+		return nil, err
+	}
+	return os.ReadFile(name)
 }
 
 func simple(op, name, name2 string, do func() error) error {
